@@ -4,6 +4,9 @@ import json
 from .common import *  # noqa
 
 KEYS = {"comp_rates", "flow_rates", "outputs", "comps", "flows"}
+# observations whose model value is the property's specified value (a disagreement there is a failing input);
+# on the others the correspondence supports the tie and the oracle searches for the failing input
+SPEC_KEYS = set()
 
 
 def unadjusted_strat(g, p, used, kind):
